@@ -122,10 +122,9 @@ U(id="fib.new.reset", **{"class": "full-domain"},
     {"name": "child-not-cleared", "file": "fiber.c", "find": "    fiber->child = NULL;\n    fiber->flags = JANET_FIBER_MASK_YIELD", "replace": "    fiber->flags = JANET_FIBER_MASK_YIELD", "expect": "no child"},
   ])
 
-FRAMEREPL = ["janet_fiber_setcapacity/fib_setcapacity_c", "janet_tuple_n/fib_tuple_n_c", "make_struct_n/fib_make_struct_n_c",
-             "janet_env_detach/fib_env_detach_c", "memmove/fib_memmove_c"]
+FRAMEREPL = ["janet_fiber_setcapacity/fib_setcapacity_c", "janet_tuple_n/fib_tuple_n_c", "make_struct_n/fib_make_struct_n_c"]
 NIL = "0xFFF8800000000001ul"
-U(id="fib.funcframe", **{"class": "proved"},
+U(id="fib.funcframe", **{"class": "proved"}, tier="thorough", timeout=900,
   clause="janet_fiber_funcframe: an arity mismatch is refused and changes nothing (fields and every stack slot); on success the new frame is linked to the old one and "
          "every new slot in [old stacktop, new stacktop) is nil (ghost index; the variadic slot holds the rest tuple), any slot count up to 2^24, no int32 overflow below 2^30 stack slots",
   src=["fiber.c"], link=["wrap.c"], link_keep={"wrap.c": ["janet_nanbox_from_bits"]}, harness=["fib_frame.c"], entry="h_funcframe",
@@ -144,6 +143,34 @@ U(id="fib.funcframe", **{"class": "proved"},
     {"name": "max-arity-unchecked", "file": "fiber.c", "find": "    if (next_arity > func->def->max_arity) return 1;\n\n    if (fiber->capacity < nextstacktop) {\n        janet_fiber_setcapacity(fiber, 2 * nextstacktop);\n#ifdef JANET_DEBUG\n    } else {\n        janet_fiber_refresh_memory(fiber);\n#endif\n    }\n\n    /* Nil unset stack", "replace": "    if (fiber->capacity < nextstacktop) {\n        janet_fiber_setcapacity(fiber, 2 * nextstacktop);\n    }\n\n    /* Nil unset stack", "expect": "postcondition"},
     {"name": "prevframe-lost", "file": "fiber.c", "find": "    newframe->prevframe = oldframe;\n    newframe->pc = func->def->bytecode;", "replace": "    newframe->prevframe = nextframe;\n    newframe->pc = func->def->bytecode;", "expect": "postcondition"},
     {"name": "capacity-check-off", "file": "fiber.c", "find": "    if (fiber->capacity < nextstacktop) {\n        janet_fiber_setcapacity(fiber, 2 * nextstacktop);\n#ifdef JANET_DEBUG\n    } else {\n        janet_fiber_refresh_memory(fiber);\n#endif\n    }\n\n    /* Nil unset stack", "replace": "    if (fiber->capacity < nextstacktop - 1) {\n        janet_fiber_setcapacity(fiber, 2 * nextstacktop);\n    }\n\n    /* Nil unset stack", "expect": "pointer_dereference|loop_invariant|postcondition|assigns"},
+  ])
+
+TAILSTUBS = ["janet_fiber_setcapacity:fib_realloc_stub", "janet_tuple_n:fib_tuple_n_stub", "make_struct_n:fib_struct_n_stub", "janet_env_detach:fib_env_detach_stub", "memmove:fib_memmove_stub"]
+TAILCHK = ["bounds-check", "pointer-check", "signed-overflow-check"]
+TAILCLAUSE = ("janet_fiber_funcframe_tail: arity mismatch refused and nothing changes; on success fiber->frame is kept, argument k arrives unchanged in parameter slot k, "
+              "missing parameters and all other new frame slots are nil, header names the callee and keeps the caller link; no access outside the live stack block")
+U(id="fib.funcframe_tail", **{"class": "bounded"}, bound="stack of at most 8 slots, callee slot count at most 4 (loops unwound with unwinding assertions); realloc modelled faithfully (old block freed); "
+  "domain excludes the second reallocation in the variadic branch (see fib.funcframe_tail.regrow)",
+  clause=TAILCLAUSE, src=["fiber.c"], harness=["fib_frame_tail.c"], entry="h_funcframe_tail_b", mode="plain", defines=["-DFIB_NO_REGROW"],
+  replace_calls=TAILSTUBS, functions=["janet_fiber_funcframe_tail"], checks=TAILCHK, unwind=10, unwinding_assertions=True, timeout=600, cbmc=CADICAL, object_bits=8,
+  assumes=["janet_fiber_setcapacity behaves as realloc: new block with the old contents, old block freed", "janet_tuple_n / make_struct_n only read their argument range (asserted); janet_env_detach does not write the fiber",
+           "memmove moves whole slots through a temporary (stub asserts that source and destination lie in a live block)"],
+  mutants=[
+    {"name": "nil-fill-starts-late", "file": "fiber.c", "find": "    for (i = fiber->frame + stacksize; i < nextframetop; ++i)", "replace": "    for (i = fiber->frame + stacksize + 1; i < nextframetop; ++i)", "expect": "nil"},
+    {"name": "args-not-moved", "file": "fiber.c", "find": "    if (stacksize) memmove(stack, args, stacksize * sizeof(Janet));", "replace": "    if (stacksize > 1) memmove(stack, args, stacksize * sizeof(Janet));", "expect": "arrives unchanged"},
+    {"name": "arity-unchecked", "file": "fiber.c", "find": "    if (next_arity > func->def->max_arity) return 1;\n\n    if (fiber->capacity < nextstacktop) {\n        janet_fiber_setcapacity(fiber, 2 * nextstacktop);\n#ifdef JANET_DEBUG\n    } else {\n        janet_fiber_refresh_memory(fiber);\n#endif\n    }\n\n    Janet *stack", "replace": "    if (fiber->capacity < nextstacktop) {\n        janet_fiber_setcapacity(fiber, 2 * nextstacktop);\n    }\n\n    Janet *stack", "expect": "refused exactly"},
+  ])
+U(id="fib.funcframe_tail.regrow", **{"class": "bounded"}, tier="thorough", bound="stack of at most 8 slots, callee slot count at most 4",
+  disabled_reason="FAILS on the real code (genuine defect, reproduced with /repo/_build/janet): janet_fiber_funcframe_tail computes `stack` and `args` from fiber->data BEFORE the variadic branch "
+                  "may call janet_fiber_setcapacity(fiber, 2 * (tuplehead + 1)); after that realloc both pointers dangle, memmove copies inside the freed block and the callee's parameter slots keep "
+                  "whatever the caller had there. Failing obligations: memmove source/destination readable/writeable (deallocated object), 'argument k arrives unchanged', 'missing parameters and locals are nil'. "
+                  "Reproducer: (defn B [&opt b1 b2 b3 b4 b5 b6 b7 b8 b9 b10 & rest] [b1 b2 b3 b10 rest]) (def A (eval ~(fn A [] ,;(seq [i :range [0 50]] ~(var ,(symbol \"l\" i) ,(+ 1000 i))) (set l0 (+ l1 l2)) (B)))) "
+                  "(pp (resume (fiber/new A))) prints (nil 2003 1001 nil nil) instead of (nil nil nil nil ()).",
+  clause=TAILCLAUSE + " - including calls that regrow the stack for the rest slot", src=["fiber.c"], harness=["fib_frame_tail.c"], entry="h_funcframe_tail_b", mode="plain",
+  replace_calls=TAILSTUBS, functions=["janet_fiber_funcframe_tail"], checks=TAILCHK, unwind=10, unwinding_assertions=True, timeout=600, cbmc=CADICAL, object_bits=8,
+  assumes=["janet_fiber_setcapacity behaves as realloc: new block with the old contents, old block freed"],
+  mutants=[
+    {"name": "nil-fill-starts-late", "file": "fiber.c", "find": "    for (i = fiber->frame + stacksize; i < nextframetop; ++i)", "replace": "    for (i = fiber->frame + stacksize + 1; i < nextframetop; ++i)", "expect": "nil"},
   ])
 
 json.dump({"units": units}, open(os.path.join(V, 'units', 'C05.json'), 'w'), indent=1)
